@@ -5,7 +5,8 @@ R-C16-1  every potentially panicking construct reachable from the decode / verif
 R-C16-2  the crate call graph reachable from those entry points is acyclic (no recursion)
 R-C16-3  every loop in the reachable set is driven by an iterator over a finite collection / bounded range
          (exception tabled: rejection sampling in random_not_zero)
-R-C16-4  allocation sizes derive from input lengths, constants or constructor-bounded parameters, never from decoded bytes
+R-C16-4  allocation sizes derive from input lengths, constants or constructor-bounded parameters, never from decoded bytes nor from what a
+         deserializer reports about its input (`SeqAccess::size_hint`); every method of a serde visitor impl is an entry point
 R-C16-5  the two length preconditions of the mixed precomputed MSM (see rules/msm.py)
 """
 from bpsa.facts import callee_decl, callee_name
@@ -111,6 +112,10 @@ def roots(ctx, rule):
         if not hits:
             ctx.rep.anchor_missing(rule, '%s/root/%s' % (rule, r), 'entry point %s not found' % r)
         out.extend(hits)
+    # every method of a serde visitor / deserialize impl is called by the format with untrusted input, whichever the crate's tests use
+    for b in ctx.facts.fns():
+        if (b.impl_trait or '').startswith(('serde::de::Visitor', 'serde::Deserialize', 'serde::de::DeserializeSeed')) and not b.is_closure and b not in out:
+            out.append(b)
     return out
 
 
@@ -241,6 +246,9 @@ def data_dependent(size):
             if base.tag == 'param' and 'u8' in TYPES.get((base[1], base[2]), ''):
                 return True
         if x.tag == 'call' and x[1].split('::')[-1] in ('from_le_bytes', 'from_be_bytes', 'read_u32', 'read_u64'):
+            return True
+        if x.tag == 'call' and x[1].startswith('serde::'):
+            # what a deserializer reports about its input (`SeqAccess::size_hint`: the element count declared in the header) is input data
             return True
     return False
 
